@@ -100,6 +100,11 @@ type Sim struct {
 	Mutate func(m *Msg) []byte
 }
 
+func init() {
+	// the library's default warning function writes to the process log
+	errbase.SetWarningFn(func(context.Context, string, ...interface{}) {})
+}
+
 // NewSim creates a simulation over the given tape.
 func NewSim(t *tape.Tape) *Sim {
 	s := &Sim{T: t, log: sha256.New(), DupNum: 1, DupDen: 8, MaxDelay: 4, MaxDeliveries: 64}
